@@ -357,6 +357,17 @@ RULESETS = {
     "pade": PADE,
     "padeb": PADE_B,
     "expm_tail": EXPM_TAIL,
+    "wrot": [
+        Rule("wr.ctor", r'SU_vector\s+suv\s*\(\s*dim\s*\)\s*;', 'struct SU_vector suv; su_ctor_sized(&suv,self->dim);', min=1),
+        Rule("wr.copy", r'(?<![\w.>])suv\s*=\s*\*\s*this\s*;', 'su_assign(&suv,self);', min=1),
+        Rule("wr.store", r'\*\s*this\s*=\s*suv\s*;', 'su_assign(self,&suv);', min=1),
+        Rule("wr.b0", r'(?<![\w.>])suv\.RotateToB0\s*\(\s*(\w+)\s*\)\s*;', r'su_RotateToB0(&suv,\1);'),
+        Rule("wr.b1", r'(?<![\w.>])suv\.RotateToB1\s*\(\s*(\w+)\s*\)\s*;', r'su_RotateToB1(&suv,\1);'),
+        Rule("wr.udag", r'(?<![\w.>])suv\s*=\s*suv\.UDaggerTransform\s*\(\s*(\w+)\s*\)\s*;', r'su_assign_UDagger(&suv,&suv,\1);'),
+        Rule("wr.ut", r'(?<![\w.>])suv\s*=\s*suv\.UTransform\s*\(\s*(\w+)\s*\)\s*;', r'su_assign_UTransform(&suv,&suv,\1);'),
+        Rule("wr.sandwich", r'(?<![\w.>])suv\s*=\s*\(\s*ACommutator\s*\(\s*(\w+)\s*,\s*ACommutator\s*\(\s*(\w+)\s*,\s*(\w+)\s*\)\s*\)\s*\+\s*iCommutator\s*\(\s*(\w+)\s*,\s*iCommutator\s*\(\s*(\w+)\s*,\s*(\w+)\s*\)\s*\)\s*\)\s*\*\s*([0-9.eE+-]+)\s*;',
+             r'op_sandwich(&suv,\1,\2,&\3,\4,\5,&\6,\7);', min=1),
+    ],
     "const_tm": [
         Rule("tm.throw", r'SQ_THROW\(((?:[^()]|\((?:[^()]|\([^()]*\))*\))*)\)\s*;', 'SQ_THROW("");', min=1),
         Rule("tm.lambda", r'auto\s+to_gsl\s*=\s*\[\s*\]\s*\([^)]*\)\s*->\s*gsl_complex\s*\{[^}]*\}\s*;', '', min=1),
